@@ -26,10 +26,13 @@ const (
 	ECtxWritev
 	EWriter
 	NEntries
+	// EReadFrom is Channel.ReadFrom (pooled 1024-byte chunks handed over without a copy); not
+	// part of the default mix because payloads above 1024 bytes become several low-level writes.
+	EReadFrom = NEntries
 )
 
 // EntryName names the entry points.
-var EntryName = []string{"Write1", "Writev", "CtxWrite1", "CtxWritev", "Writer().Write"}
+var EntryName = []string{"Write1", "Writev", "CtxWrite1", "CtxWritev", "Writer().Write", "ReadFrom"}
 
 // WriteRec is one write call as seen at the client boundary.
 type WriteRec struct {
@@ -119,6 +122,8 @@ func DoWrite(ch netty.Channel, ctx context.Context, entry int, buf []byte, rng *
 	case EWriter:
 		n, err := ch.Writer().Write(buf)
 		return int64(n), err
+	case EReadFrom:
+		return ch.ReadFrom(bytes.NewReader(buf))
 	case EWritev, ECtxWritev:
 		parts := split(buf, rng)
 		if entry == EWritev {
